@@ -165,7 +165,7 @@ package syncer
 
 //@ func RedisOutput.sendCmdsBatch$sendFuncOnce
 //@   arith int
-//@   properties C07 C09 C02
+//@   properties C07 C09 C02 C01
 //@   ghost var bLen mathint
 //@   ghost var bFirst string
 //@   ghost var bLast string
@@ -180,6 +180,9 @@ package syncer
 //@   requires cp_monotone [C07]: shouldUpdateCP ==> lastOffset >= tCpHigh
 //@   modifies heap, cmdQueue, queuedByteSize, bLen, bFirst, bLast, bCpPuts, bCp, bCpPos, tCpHigh, cpArmed
 //@   set cpArmed = 1 at call OffsetKey
+//@   assert at call Put: a_flush_puts_exactly_the_queue_in_order [C01]: (bLen - ite(shouldInTransaction, 1, 0) >= 0 && bLen - ite(shouldInTransaction, 1, 0) < len(cmdQueue) && !(shouldInTransaction && bLen == 0) ==> arg0 == cmdQueue[bLen - ite(shouldInTransaction, 1, 0)].Cmd && arg1 == cmdQueue[bLen - ite(shouldInTransaction, 1, 0)].Args) && (shouldInTransaction && bLen == 0 ==> arg0 == "multi") && (bLen - ite(shouldInTransaction, 1, 0) >= len(cmdQueue) ==> arg0 == "hset" || arg0 == "exec")
+//@   assert at call Exec: the_whole_queue_is_in_the_batch [C01]: bLen >= len(cmdQueue) + ite(shouldInTransaction, 2, 0)
+//@   assert at call Dispatch: the_whole_queue_is_in_the_batch [C01]: bLen >= len(cmdQueue) + ite(shouldInTransaction, 2, 0)
 //@   ensures sent: result == nil && !isPipeline ==> len(cmdQueue) == 0
 //@   ensures queue_kept_or_emptied: queueClean(cmdQueue)
 //@   ensures disarmed: cpArmed == 0
@@ -221,7 +224,7 @@ package syncer
 //            the batch being flushed.
 //@ func RedisOutput.sendCmdsBatch
 //@   arith int
-//@   properties C07 C09 C02
+//@   properties C07 C09 C02 C01
 //@   replay syncer_sendCmdsBatch
 //@   ghost var bLen mathint
 //@   ghost var bFirst string
@@ -233,13 +236,24 @@ package syncer
 //@   ghost var cpArmed mathint = 0
 //@   ghost var pending mathint = 0 - 1
 //@   requires nonnil: ro != nil && conn != nil && replayWait != nil
-//@   modifies heap, bLen, bFirst, bLast, bCpPuts, bCp, bCpPos, tCpHigh, cpArmed, pending
+//@   modifies heap, bLen, bFirst, bLast, bCpPuts, bCp, bCpPos, tCpHigh, cpArmed, pending, unqueued, rcvCmd, rcvOff, rcvDb
 //@   chan sendBuf: increasing: recv.Offset > lastOffset && recv.Offset >= 0
 //@   chan sendBuf: no_nested_multi: recv.Cmd == "multi" ==> txnStatus != txnStatusBegin && txnStatus != txnStatusIn
 //@   set pending = lastOffset after store lastOffset
 //@   set pending = 0 - 1 after store cmdQueue
 //@   set pending = 0 - 1 after store inTransaction
 //@   set pending = 0 - 1 at loop 1
+//@   ghost var unqueued mathint = 0
+//@   ghost var rcvCmd string
+//@   ghost var rcvOff mathint
+//@   ghost var rcvDb mathint
+//@   set rcvCmd = recv.Cmd after recv sendBuf
+//@   set rcvOff = recv.Offset after recv sendBuf
+//@   set rcvDb = recv.Db after recv sendBuf
+//@   set unqueued = ite(recv.Cmd == "ping", 0, 1) after recv sendBuf
+//@   set unqueued = ite(txnStatus == txnStatusBegin || txnStatus == txnStatusCommit, 0, unqueued) after store txnStatus
+//@   set unqueued = 0 after store cmdQueue
+//@   assert after store cmdQueue: received_command_is_appended_at_the_end [C01]: unqueued == 1 ==> len(cmdQueue) >= 1 && cmdQueue[len(cmdQueue) - 1].Cmd == rcvCmd && cmdQueue[len(cmdQueue) - 1].Offset == rcvOff && cmdQueue[len(cmdQueue) - 1].Db == rcvDb
 //@   assert at call sendFunc: cp_absorbed [C02 C09]: shouldUpdateCP ==> pending == 0 - 1 || lastOffset < pending || txnStatus == txnStatusCommit
 //@   assert at call sendFunc: txn_whole [C09]: !inTransaction || txnStatus == txnStatusCommit
 //@   assert at call sendFunc: cp_monotone [C07]: shouldUpdateCP ==> lastOffset >= tCpHigh
@@ -250,6 +264,7 @@ package syncer
 //@     invariant status: txnStatus >= txnStatusNo && txnStatus <= txnStatusCommit
 //@     invariant txn: inTransaction ==> (transactionMode && !needFlush && (txnStatus == txnStatusBegin || txnStatus == txnStatusIn))
 //@     invariant queue: queueClean(cmdQueue)
+//@     invariant every_received_command_was_queued_or_is_a_documented_removal: unqueued == 0
 
 // ---- snapshot replay workers (C04) ---------------------------------------------------------
 //   ended         1 once the worker has seen the end of its pipe (closed, Done or Err entry)
